@@ -32,7 +32,7 @@ for sid in sorted(d for d in os.listdir(S) if os.path.isdir(os.path.join(S, d)))
             "demo_with_patch": sect("demo WITH patch"),
             "demo_without_patch": sect("demo WITHOUT patch"),
         },
-        "checks_run_against_it": "lib/seed_matrix.sh: git -C /repo apply patch.diff; ./check ALL; git -C /repo checkout -- .",
+        "checks_run_against_it": "lib/seed_matrix.sh: git apply patch.diff in /repo (or, for changes outside zvt_builder, in an isolated checkout of /repo HEAD via ZVT_REPO); ./check ALL; git checkout -- .",
         "verdict_of_its_own_property_check": own,
         "violations_reported": caught,
         "undecided": undec,
